@@ -116,6 +116,17 @@ def replay(col, case):
                 if not np.array_equal(a_spec, s_in) or not np.array_equal(a_grid, fg):
                     # g(f(B)) = B is a statement about the caller's B: it must still be what it was
                     col.violation("density-%s-overwrites-input-%s" % (key, shape), dict(rep))
+                # the caller goes on with the SAME grid object, doubled in place (exact in binary): the answer is the one a
+                # fresh pair of arrays with these values gets
+                try:
+                    a_grid *= 2.0
+                    again = fn(a_spec, a_grid)
+                    fresh = fn(a_spec.copy(), a_grid.copy())
+                    if not (np.array_equal(np.asarray(again[0]), np.asarray(fresh[0])) and np.array_equal(np.asarray(again[1]), np.asarray(fresh[1]))):
+                        col.violation("density-%s-remembers-an-earlier-grid-%s" % (key, shape),
+                                      dict(rep, expected=np.asarray(fresh[0]).tolist(), observed=np.asarray(again[0]).tolist()))
+                except Exception as ex:
+                    col.violation(key + "-raises-" + type(ex).__name__ + "-second-call-" + shape, dict(rep, observed=repr(ex)[:200]))
                 if not allclose(got_spec, w) or not allclose(got_grid, want_grid):
                     kind = "grid-not-reversed" if allclose(np.asarray(got_grid)[::-1], want_grid) else "wrong-value"
                     col.violation("density-%s-%s-%s" % (key, kind, shape), dict(rep, expected=[w.tolist(), want_grid.tolist()],
